@@ -3,6 +3,8 @@
 import json, sys
 pid = sys.argv[1]
 n = sys.argv[2] if len(sys.argv) > 2 else "2"
+start = int(sys.argv[3]) if len(sys.argv) > 3 else 1
+last = start + int(n) - 1
 for l in open('/verif/properties.jsonl'):
     p = json.loads(l)
     if p['id'] == pid:
@@ -20,14 +22,14 @@ The property (a semantic guarantee users of the library rely on):
   code it is anchored in: {', '.join(p['anchors']['files'])}
   mechanisms: {'; '.join(m['name'] + ' (' + m['where'] + ')' for m in p['anchors']['mechanism'])}
 
-Task: produce {n} DIFFERENT, independent changes to the non-test source of pion/ice (each a small patch, a few lines, looking like a plausible regression or careless refactor a real developer could make) such that, for each change:
+Task: produce {n} DIFFERENT, independent changes (spread them over different files / mechanisms / clauses of the property; avoid the most obvious one-line inversion) to the non-test source of pion/ice (each a small patch, a few lines, looking like a plausible regression or careless refactor a real developer could make) such that, for each change:
   1. the package still compiles and the ENTIRE existing test suite still passes (run it: `go test -vet=off -count=1 -timeout 25m ./...`; a few tests are timing-flaky on a loaded machine — rerun a failing test alone to tell flakiness from a real failure);
   2. the change BREAKS the property above;
   3. the breakage needs something specific to manifest — a particular input value or unusual input, a particular interleaving/schedule, a fault or crash at a particular point, a multi-step sequence of operations, or two cooperating sites that each look fine alone — NOT something ordinary use would expose at once;
   4. you have a demonstration: a new Go test file (package ice, or the package of the changed code) that FAILS with the change applied and PASSES on the unchanged code. Keep the demonstration deterministic if at all possible (loop/retry inside the test if a schedule is needed).
 Do not touch existing test files. Do not modify anything under internal/verifhook, and keep calls to verifhook.* in place (they are inert instrumentation points).
 
-Deliver, for change k = 1..{n}, these files in /tmp/seedwt/{pid}/_seed/k/ :
+Deliver, for change k = {start}..{last}, these files in /tmp/seedwt/{pid}/_seed/k/ :
    patch.diff   — `git diff` of the source change only (must apply with `git apply` to a clean checkout of this worktree's HEAD)
    demo_test.go — the demonstration test (state at the top of the file which directory it must be copied into and the exact `go test -run` command)
    notes.md     — which clause of the property it breaks, what it needs in order to manifest, and the outputs you observed (suite pass with the change; demo fails with / passes without)
